@@ -5,6 +5,7 @@ package main
 
 import (
 	"fmt"
+	"go/ast"
 	"go/types"
 	"strings"
 
@@ -62,15 +63,51 @@ func (x *Exec) callEnv(st *State, c *Contract, sig *types.Signature, fn *ssa.Fun
 }
 
 // applyContract uses a callee's contract at a call site.
-func (x *Exec) applyContract(st *State, fr *Frame, site ssa.Instruction, c *Contract, env *CEnv, sig *types.Signature, args []*Val, kn func(*State, []*Val), kp func(*State, *Val)) {
+func (x *Exec) applyContract(st *State, fr *Frame, site ssa.Instruction, c *Contract, env *CEnv, sig *types.Signature, args []*Val, kn0 func(*State, []*Val), kp0 func(*State, *Val)) {
+	// type parameters named in the callee's contract resolve to the callee instance's type arguments
+	saved := x.tscope
+	x.tscope = env.fn
+	defer func() { x.tscope = saved }()
+	kn := func(s *State, r []*Val) { t := x.tscope; x.tscope = saved; kn0(s, r); x.tscope = t }
+	kp := func(s *State, p *Val) { t := x.tscope; x.tscope = saved; kp0(s, p); x.tscope = t }
 	ord := 0
 	if site != nil {
 		ord = x.siteOrdinal(fr.fn, site, "call")
 	}
 	env.oldHeap = st.heapCopy()
 	env.curHeap = nil
+	// contract-level 'forall' variables of the callee: identified with same-named
+	// variables of the function under verification (instance), otherwise the
+	// clauses mentioning them are used in quantified form.
+	var unbound []ParamSpec
+	for _, fa := range c.Foralls {
+		if v, ok := x.forallVs[fa.Name]; ok && x.cur != nil && x.cur != c {
+			env.vars[fa.Name] = v
+		} else {
+			unbound = append(unbound, fa)
+		}
+	}
+	mentions := func(cl Clause) bool {
+		found := false
+		ast.Inspect(cl.Expr, func(n ast.Node) bool {
+			if id, ok := n.(*ast.Ident); ok {
+				for _, fa := range unbound {
+					if fa.Name == id.Name {
+						found = true
+					}
+				}
+			}
+			return true
+		})
+		return found
+	}
+	var qreq []Clause
 	// preconditions
 	for i, r := range c.Requires {
+		if len(unbound) > 0 && mentions(r) {
+			qreq = append(qreq, r)
+			continue
+		}
 		lbl := r.Label
 		if lbl == "" {
 			lbl = fmt.Sprint(i)
@@ -139,7 +176,7 @@ func (x *Exec) applyContract(st *State, fr *Frame, site ssa.Instruction, c *Cont
 	normal := func(s *State) {
 		e2, res := doEffects(s, false)
 		for _, en := range c.Ensures {
-			s.assume(x.quantifyForalls(e2, c, en))
+			s.assume(x.quantifyForalls(e2, c, unbound, qreq, en))
 		}
 		kn(s, res)
 	}
@@ -150,7 +187,7 @@ func (x *Exec) applyContract(st *State, fr *Frame, site ssa.Instruction, c *Cont
 		e2.panicked = true
 		e2.panicVal = pv
 		for _, en := range c.EnsuresP {
-			s.assume(x.quantifyForalls(e2, c, en))
+			s.assume(x.quantifyForalls(e2, c, unbound, qreq, en))
 		}
 		kp(s, pv)
 	}
@@ -168,10 +205,26 @@ func (x *Exec) applyContract(st *State, fr *Frame, site ssa.Instruction, c *Cont
 	panicPath(st2)
 }
 
-// quantifyForalls evaluates a callee clause at a call site; the callee's
-// contract-level 'forall' variables become universally quantified.
-func (x *Exec) quantifyForalls(env *CEnv, c *Contract, cl Clause) Tm {
-	if len(c.Foralls) == 0 {
+// quantifyForalls evaluates a callee clause at a call site. Contract-level
+// 'forall' variables of the callee that could not be identified with variables of
+// the caller are universally quantified; requires clauses mentioning them become
+// antecedents (evaluated in the pre-state).
+func (x *Exec) quantifyForalls(env *CEnv, c *Contract, unbound []ParamSpec, qreq []Clause, cl Clause) Tm {
+	if len(unbound) == 0 {
+		return env.evalBool(cl)
+	}
+	used := false
+	ast.Inspect(cl.Expr, func(n ast.Node) bool {
+		if id, ok := n.(*ast.Ident); ok {
+			for _, fa := range unbound {
+				if fa.Name == id.Name {
+					used = true
+				}
+			}
+		}
+		return true
+	})
+	if !used {
 		return env.evalBool(cl)
 	}
 	m := env.st.m
@@ -180,7 +233,7 @@ func (x *Exec) quantifyForalls(env *CEnv, c *Contract, cl Clause) Tm {
 		sub.vars[k] = v
 	}
 	var bvs []string
-	for _, fa := range c.Foralls {
+	for _, fa := range unbound {
 		t := x.resolveType(c.Pkg, fa.Type)
 		ls := m.leaves(t)
 		ts := make([]Tm, len(ls))
@@ -193,8 +246,14 @@ func (x *Exec) quantifyForalls(env *CEnv, c *Contract, cl Clause) Tm {
 	}
 	var sides []Tm
 	sub.sides = &sides
+	var ante []Tm
+	pre := *sub
+	pre.inOld = true
+	for _, r := range qreq {
+		ante = append(ante, pre.evalBool(r))
+	}
 	body := sub.evalBool(cl)
-	return tm(SBool, "(forall (%s) %s)", strings.Join(bvs, " "), implies(and(sides...), body).S)
+	return mkForall(strings.Join(bvs, " "), implies(and(append(sides, ante...)...), body))
 }
 
 // havocModifies replaces the heap arrays named by a modifies list.
